@@ -123,9 +123,14 @@ static std::string maybe_long(Rng& r, std::string s) {
 
 static std::string mutate_string(Rng& r, std::string s) {
   if (s.empty()) return "x";
-  int c = r.range(0, 6);
+  int c = r.range(0, 7);
   size_t p = r.below(s.size());
   switch (c) {
+    case 7: {  // complete multibyte characters (the loose bytes of cases 1 and 2 are never a valid UTF-8 sequence)
+      static const char* const u[] = {"\xc2\xb7", "\xe2\x82\x82", "\xce\xb1", "\xc3\xa9", "\xe2\x80\x93", "\xf0\x9f\x92\x8e", "\xc2\xa0"};
+      s.insert(p, u[r.below(sizeof u / sizeof u[0])]);
+      break;
+    }
     case 6: {  // conversion specifications: a caller's string must never be used as a format
       static const char* const f[] = {"%s", "%n", "%s%s%s%s", "%d%n", "%1000000d", "%%", "%ls", "%*d", "%hhn", "%1$s"};
       s.insert(p, f[r.below(sizeof f / sizeof f[0])]);
@@ -260,7 +265,7 @@ void set_focus(Rng& r, GenCfg& cfg) {
 static Op gen_focus_op(Rng& r, int id, const GenCfg& cfg) {
   Op o = gen_query_op_for(r, id, cfg.focus_q[r.below(cfg.nfocus)]);
   const QueryDef* q = query_find(o.fn.c_str());
-  if (cfg.focus_macro_set && q && q->shape[0] == 'i' && q->shape[1] == 'i' && r.chance(1, 2)) o.i[1] = cfg.focus_macro;
+  if (cfg.focus_macro_set && q && q->shape[0] == 'i' && q->shape[1] == 'i' && r.chance(cfg.focus_strength ? 3 : 2, 4)) o.i[1] = cfg.focus_macro;
   if (q && strchr(q->shape, 's') && !cfg.focus_strings.empty() && r.chance(7, 10)) { o.s = cfg.focus_strings[r.below(cfg.focus_strings.size())]; o.snull = false; }
   if (r.chance(3, 4) && o.i[0] > 120) o.i[0] = r.range(1, 98);
   return o;
@@ -324,7 +329,7 @@ Op gen_self_contained_op(Rng& r, int id, bool crystal_catalogue) {
   } else if (c < 95) {
     o.kind = OK_ATOMFAC;
     o.i[0] = gen_Z(r); o.d[0] = gen_E(r); o.d[1] = gen_q(r); o.d[2] = r.chance(4, 5) ? 0.5 + r.unit() : gen_density(r);
-    o.i[1] = r.chance(3, 4) ? 7 : r.range(0, 7);
+    o.i[1] = r.chance(3, 4) ? 7 : r.range(0, 15);
   } else if (c < 98) {
     // crystal maths on a shipped crystal (fetched by name inside the op) or on a caller-built one
     static const char* const fns[] = {"Bragg_angle", "Q_scattering_amplitude", "Crystal_F_H_StructureFactor",
@@ -472,6 +477,7 @@ bool CrystalData::volume_comparable() const {
   return rad > 0.009 && isfinite(v) && v > 0 && v < 1e100;
 }
 
+static thread_local int t_long_numbers_left = 0;   // per line: how many numbers may still be spelled with 25+ characters
 static void fmt_num(std::string& out, double v, Rng* style = nullptr) {
   // short decimal text (lines of the dialect must stay below 100 characters); a file is bytes, so the
   // decimal point is '.' whatever the process locale is
@@ -481,7 +487,15 @@ static void fmt_num(std::string& out, double v, Rng* style = nullptr) {
   std::string t = b;
   if (style && t.find_first_of("eEn") == std::string::npos) {
     // other spellings of exactly the same decimal value (strtod / %lf give the same double for all of them)
-    switch (style->below(8)) {
+    switch (style->below(9)) {
+      case 8:   // many digits: longer than any field width a reader might think sufficient, the line stays below 100 characters
+        if (t_long_numbers_left > 0) {
+          t_long_numbers_left--;
+          if (t.find('.') == std::string::npos) t += ".";
+          size_t want = 25 + style->below(8);
+          while (t.size() < want) t += "0";
+        }
+        break;
       case 0: if (v >= 0 && t[0] != '-') t = "+" + t; break;
       case 1: t += "e0"; break;
       case 2: t += "E+00"; break;
@@ -540,7 +554,7 @@ std::string render_crystal_file(const FileSpec& fs, bool* wellformed, std::vecto
     if (!(hit && fs.mut == FM_NO_UCELL)) {
       std::string u = "#UCELL ";
       if (hit && fs.mut == FM_BAD_UCELL) { u += "4.2 abc 3"; wf = false; }
-      else for (int k = 0; k < 6; k++) { fmt_num(u, d.cell[k], style); u += k < 5 ? " " : ""; }
+      else { t_long_numbers_left = 1; for (int k = 0; k < 6; k++) { fmt_num(u, d.cell[k], style); u += k < 5 ? " " : ""; } }
       t += u; t += nl;
       if (hit && fs.mut == FM_DUP_UCELL) { t += u; t += nl; wf = false; }
     } else wf = false;
@@ -559,6 +573,7 @@ std::string render_crystal_file(const FileSpec& fs, bool* wellformed, std::vecto
       else if (bad && fs.mut == FM_NONNUM_ATOM) { snprintf(b, sizeof b, "%d one 0.5 0.5 0.5", a.Z); row = b; wf = false; }
       else {
         snprintf(b, sizeof b, "%d ", a.Z); row = b;
+        t_long_numbers_left = 1;
         fmt_num(row, a.frac, style); row += " "; fmt_num(row, a.x, style); row += "  "; fmt_num(row, a.y, style); row += "  "; fmt_num(row, a.z, style);
         if (bad && fs.mut == FM_EXTRA_COLS) { row += " 0.25 extra"; wf = false; }
       }
@@ -697,7 +712,7 @@ void gen_history(Rng& r, const GenCfg& cfg, std::vector<Op>& out, int& next_id, 
       ops.push_back(o);
       continue;
     }
-    if (cfg.nfocus > 0 && r.chance(3, 5)) {
+    if (cfg.nfocus > 0 && r.chance(cfg.focus_strength ? 4 : 3, 5)) {
       o = gen_focus_op(r, id, cfg);
     } else if (c < wq) {
       o = gen_query_op(r, id);
@@ -830,7 +845,7 @@ void gen_history(Rng& r, const GenCfg& cfg, std::vector<Op>& out, int& next_id, 
         o = gen_crystal_math(r, st, id, cfg);
       } else if (a < 98 || cfg.threadsafe_only) {
         o.kind = OK_ATOMFAC; o.i[0] = gen_Z(r); o.d[0] = gen_E(r); o.d[1] = gen_q(r); o.d[2] = r.chance(4, 5) ? 0.5 + r.unit() : gen_density(r);
-        o.i[1] = r.chance(3, 4) ? 7 : r.range(0, 7);
+        o.i[1] = r.chance(3, 4) ? 7 : r.range(0, 15);
       } else {
         o.kind = OK_CA_FILL; o.h[0] = use_builtin ? -2 : arr; o.i[0] = r.chance(1, 2) ? r.range(8, 25) : r.range(460, 500);
         if (o.h[0] != -2 && o.i[0] > 100) o.i[0] = r.range(8, 40);
